@@ -24,22 +24,51 @@ Definition allowed_send_names : list (list Z) := [
 Definition chan_allow : list Z :=
   map fst (filter (fun s => existsb (zlist_eqb (snd s)) allowed_send_names) send_sites).
 
+(* channel classes (by element type) whose channels are closed under a mutex: every send to a
+   channel of the class must be done while that mutex is held (read or write), every close under
+   its write lock -- otherwise a close can fall between a send's lookup of the channel and the send,
+   and the sender panics ("send on closed channel") in a goroutine no interceptor covers.
+   beacon.cbPair: the per-follower job queues of the callback store (callbackStore.newJob), closed by
+   AddCallback / RemoveCallback when a sync / stream follower re-requests or hangs up. *)
+Definition guarded_classes : list (list Z * list Z) := [
+  ([98; 101; 97; 99; 111; 110; 46; 99; 98; 80; 97; 105; 114] (* beacon.cbPair *),
+   [98; 101; 97; 99; 111; 110; 46; 99; 97; 108; 108; 98; 97; 99; 107; 83; 116; 111; 114; 101; 46; 82; 87; 77; 117; 116; 101; 120] (* beacon.callbackStore.RWMutex *))
+].
+Definition mutex_id (name : list Z) : option Z :=
+  match find (fun m => zlist_eqb (snd m) name) lock_mutexes with Some m => Some (fst m) | None => None end.
+Definition guards_of (classes : list (Z * list Z)) : list (Z * Z) :=
+  flat_map (fun sc =>
+    flat_map (fun g =>
+      if zlist_eqb (snd sc) (fst g)
+      then match mutex_id (snd g) with Some m => [(fst sc, m)] | None => [] end
+      else []) guarded_classes) classes.
+Definition chan_policy : policy :=
+  std_policy chan_allow (guards_of send_classes) (guards_of close_classes).
+(* the guard table is about something: each class has a mutex, a send site and a close site in the
+   regenerated tables (a refactoring that renames them breaks the obligation instead of emptying it) *)
+Definition guards_present : bool :=
+  forallb (fun g =>
+    match mutex_id (snd g) with Some _ => true | None => false end &&
+    existsb (fun sc => zlist_eqb (snd sc) (fst g)) send_classes &&
+    existsb (fun sc => zlist_eqb (snd sc) (fst g)) close_classes) guarded_classes.
+
 (* per-run obligation (T): on the event trees regenerated from the sources, with calls inlined to
    depth 8 over the generated call graph *)
-Theorem C14_locks : paths_ok (flookup lock_funs) chan_allow 8 lock_entries = true.
-Proof. vm_compute. reflexivity. Qed.
+Theorem C14_locks : paths_ok (flookup lock_funs) chan_policy 8 lock_entries = true /\ guards_present = true.
+Proof. vm_compute. split; reflexivity. Qed.
 Print Assumptions C14_locks.
 
 (* hence, by the soundness lemma: every execution of every handler (any branch, any number of
    loop iterations, a panic at any panic-able dereference of a request parameter, calls of any
    depth) never blocks on a mutex it holds itself, never unlocks a mutex it does not hold, never
-   does a non-listed blocking send under a lock, and ends -- returning or panicking -- with no
+   does a non-listed blocking send under a lock, never sends to (closes) a channel of a guarded class
+   without holding (write-holding) its mutex, and ends -- returning or panicking -- with no
    lock held *)
 Theorem C14_no_self_deadlock_locks_released : forall f body fo,
   In f lock_entries -> flookup lock_funs f = Some body ->
-  fexec (flookup lock_funs) chan_allow body [] fo ->
+  fexec (flookup lock_funs) chan_policy body [] fo ->
   no_self_deadlock fo /\ locks_released fo.
-Proof. exact (paths_ok_sound lock_funs chan_allow 8 lock_entries C14_locks). Qed.
+Proof. exact (paths_ok_sound lock_funs chan_policy 8 lock_entries (proj1 C14_locks)). Qed.
 Print Assumptions C14_no_self_deadlock_locks_released.
 
 (* the soundness lemma itself, for any generated table *)
@@ -131,7 +160,7 @@ Definition entry_checked (name : list Z) : bool :=
 Theorem C14_contained : forall s : psite,
   entry_checked (site_entry s) = true /\ entry_checked site_entry_bcast = true /\
   chain_has site_service private_services = true /\ recovery_installed = true /\
-  paths_ok (flookup lock_funs) chan_allow 8 lock_entries = true.
+  paths_ok (flookup lock_funs) chan_policy 8 lock_entries = true.
 Proof. intro s. vm_compute. repeat split; reflexivity. Qed.
 Print Assumptions C14_contained.
 
@@ -163,5 +192,6 @@ Example C14_nonvacuous :
   gossip_wire (mkG false meta false (VProposal TNil) false) = false /\
   decide_partial (mkP 5 98 true false false true) (mkB true 5 3 98) = Answer /\
   decide_partial (mkP 5 97 true false false true) (mkB true 5 3 98) = Reject /\
-  (2 <= length lock_entries)%nat /\ (1 <= length chan_allow)%nat.
+  (2 <= length lock_entries)%nat /\ (1 <= length chan_allow)%nat /\
+  (2 <= length (guards_of send_classes))%nat /\ (2 <= length (guards_of close_classes))%nat.
 Proof. vm_compute. repeat split; try reflexivity; repeat constructor. Qed.
